@@ -6,7 +6,9 @@ package main
 import (
 	"fmt"
 	"go/token"
+	"go/types"
 	"sort"
+	"strings"
 
 	"golang.org/x/tools/go/ssa"
 )
@@ -62,6 +64,17 @@ func nOnlyMod3(fn *ssa.Function, params []*ssa.Parameter) (bool, string) {
 		v, isv := in.(ssa.Value)
 		if !isv || !isN(v) {
 			return
+		}
+		// a run can be longer than 255 delimiters: in a narrow integer the stored value (and a sum of two) is no longer
+		// congruent to the run length modulo 3
+		if b, isB := v.Type().Underlying().(*types.Basic); isB {
+			switch b.Kind() {
+			case types.Int, types.Int64, types.Uint, types.Uint64, types.Int32, types.Uint32:
+			default:
+				ok = false
+				why = fmt.Sprintf("%s reads the run length from a %s, which wraps around for long runs (256 is not a multiple of 3)", shortFuncName(fn), b.Name())
+				return
+			}
 		}
 		if !okUse(v, 0) {
 			ok = false
@@ -215,6 +228,36 @@ func ruleEmphKX(c *Ctx) {
 		}
 		rows[ci] = row
 	}
+	// EMPH-P: the match predicate itself against the specification (rules 9 and 10), on the same finite domain
+	{
+		c.Rule("EMPH-P", "isEmphasisDelimiterMatch equals the specification's matching condition on the whole finite domain (delimiter type x opener/closer bits x run length modulo 3 of both elements): same `*`/`_` character, the first can open, the second can close, and — if either of them can both open and close — the sum of the run lengths is not a multiple of 3 unless both lengths are.")
+		star, _ := p.CM.Types.Scope().Lookup("inlineDelimiterStar").(*types.Const)
+		under, _ := p.CM.Types.Scope().Lookup("inlineDelimiterUnderscore").(*types.Const)
+		opn, _ := p.CM.Types.Scope().Lookup("openerFlag").(*types.Const)
+		cls, _ := p.CM.Types.Scope().Lookup("closerFlag").(*types.Const)
+		if star == nil || under == nil || opn == nil || cls == nil {
+			c.Undecided("EMPH-P", "constants", pred.Pos(), "delimiter type or flag constants not found")
+		} else {
+			sv, _ := constInt64Of(star)
+			uv, _ := constInt64Of(under)
+			ob, _ := constInt64Of(opn)
+			cb, _ := constInt64Of(cls)
+			var dev []string
+			for ci, cl := range elems {
+				for oi, op := range elems {
+					isEmph := (op.typ == sv || op.typ == uv) && op.typ == cl.typ
+					want := isEmph && op.flags&ob != 0 && cl.flags&cb != 0
+					if want && (op.flags&cb != 0 || cl.flags&ob != 0) && (op.n+cl.n)%3 == 0 && !(op.n%3 == 0 && cl.n%3 == 0) {
+						want = false
+					}
+					if rows[ci][oi] != want && len(dev) < 5 {
+						dev = append(dev, fmt.Sprintf("opener {%s flags=%#x n=%d} closer {%s flags=%#x n=%d}: %v, specification %v", typNames[op.typ], op.flags, op.n, typNames[cl.typ], cl.flags, cl.n, rows[ci][oi], want))
+					}
+				}
+			}
+			c.Check(len(dev) == 0, "EMPH-P", "isEmphasisDelimiterMatch:table", pred.Pos(), fmt.Sprintf("%d pairs; deviations: %s", len(elems)*len(elems), strings.Join(dev, "; ")))
+		}
+	}
 	c.Analysed["emphkx_elements"] = len(elems)
 	c.Analysed["emphkx_predicate_evaluations"] = evals
 	desc := func(e delimVal) string {
@@ -275,4 +318,204 @@ func ruleEmphKX(c *Ctx) {
 	if bad == 0 {
 		c.OK("EMPH-KX", "openersBottomIndex:slots", key.Pos(), fmt.Sprintf("%d searched closers in %d slots; within every slot the match predicate agrees for all %d openers", nSearched, len(ks), len(elems)))
 	}
+}
+
+// EMPH-FLANK: flanking classification and can-open / can-close, exactly.
+func ruleEmphFlank(c *Ctx) {
+	c.Rule("EMPH-FLANK", "Flanking classification is the specification's: (classes) the two character classes emphasisFlags consults are exactly CommonMark 0.30's Unicode whitespace and Unicode punctuation sets (exact accept sets over all code points, BSET); (table) over all 2 x 3 x 3 combinations of delimiter character, class of the preceding character and class of the following character (whitespace, punctuation, other — the results of the classifier calls are the symbols), the opener and closer bits emphasisFlags returns equal the specification's left-/right-flanking and can-open / can-close rules (rules 1-8 of section 6.2, including the intraword restriction for `_`).")
+	p := c.P
+	e := newBSET(p)
+	for _, o := range classifierOracles {
+		if o.fn == "isUnicodeWhitespace" || o.fn == "isUnicodePunctuation" {
+			checkClassifierOracle(c, e, o, "EMPH-FLANK")
+		}
+	}
+	fn := p.Func("emphasisFlags")
+	if !c.NeedFunc("EMPH-FLANK", fn, "emphasisFlags") {
+		return
+	}
+	ws, pu := p.Func("isUnicodeWhitespace"), p.Func("isUnicodePunctuation")
+	if ws == nil || pu == nil {
+		return
+	}
+	// the two runes classified: arguments of the classifier calls; "previous" is the one decoded with DecodeLastRune
+	// (or defaulting before the run), told apart by which decode call feeds them
+	var prevV, nextV ssa.Value
+	runeSrc := func(v ssa.Value) string {
+		seen := map[ssa.Value]bool{}
+		res := ""
+		var w func(v ssa.Value)
+		w = func(v ssa.Value) {
+			if v == nil || seen[v] {
+				return
+			}
+			seen[v] = true
+			switch x := v.(type) {
+			case *ssa.Phi:
+				for _, ed := range x.Edges {
+					w(ed)
+				}
+			case *ssa.Extract:
+				w(x.Tuple)
+			case *ssa.Call:
+				if f := x.Call.StaticCallee(); f != nil {
+					switch f.Name() {
+					case "DecodeLastRune", "DecodeLastRuneInString":
+						res = "prev"
+					case "DecodeRune", "DecodeRuneInString":
+						res = "next"
+					}
+				}
+			}
+		}
+		w(v)
+		return res
+	}
+	eachInstr(fn, func(in ssa.Instruction) {
+		call, ok := in.(*ssa.Call)
+		if !ok || (call.Call.StaticCallee() != ws && call.Call.StaticCallee() != pu) || len(call.Call.Args) != 1 {
+			return
+		}
+		switch runeSrc(call.Call.Args[0]) {
+		case "prev":
+			prevV = call.Call.Args[0]
+		case "next":
+			nextV = call.Call.Args[0]
+		}
+	})
+	if prevV == nil || nextV == nil {
+		c.Undecided("EMPH-FLANK", "emphasisFlags:runes", fn.Pos(), "the preceding and following characters (DecodeLastRune / DecodeRune results) were not identified")
+		return
+	}
+	// the delimiter character test: a load of source[...] compared with '*' (or '_')
+	openerBit, closerBit := int64(2), int64(4)
+	if k, ok := p.CM.Types.Scope().Lookup("openerFlag").(*types.Const); ok {
+		openerBit, _ = constInt64Of(k)
+	}
+	if k, ok := p.CM.Types.Scope().Lookup("closerFlag").(*types.Const); ok {
+		closerBit, _ = constInt64Of(k)
+	}
+	var bad []string
+	n := 0
+	classes := []string{"ws", "punct", "other"}
+	for _, delim := range []int64{'*', '_'} {
+		for _, pc := range classes {
+			for _, nc := range classes {
+				n++
+				symVal := func(v ssa.Value) (int64, bool) {
+					if call, ok := v.(*ssa.Call); ok && len(call.Call.Args) == 1 {
+						cal := call.Call.StaticCallee()
+						if cal == ws || cal == pu {
+							cls := ""
+							switch call.Call.Args[0] {
+							case prevV:
+								cls = pc
+							case nextV:
+								cls = nc
+							default:
+								return 0, false
+							}
+							if cal == ws {
+								return b2i(cls == "ws"), true
+							}
+							return b2i(cls == "punct"), true
+						}
+					}
+					// the delimiter byte: any load of a byte of the source slice
+					if ld, ok := v.(*ssa.UnOp); ok && ld.Op == token.MUL {
+						if ia, ok := ld.X.(*ssa.IndexAddr); ok {
+							if _, isParam := ia.X.(*ssa.Parameter); isParam {
+								return delim, true
+							}
+						}
+					}
+					return 0, false
+				}
+				// decide every branch that depends only on the symbols; the rune-fetching branches (span at the edge of
+				// the source) do not influence the flags once the classes are fixed, so both ways must agree
+				results := map[int64]bool{}
+				st := &evalState{e: e, fn: fn, symVal: symVal, from: make([]int, len(fn.Blocks))}
+				for i := range st.from {
+					st.from[i] = -2
+				}
+				visits := make([]int, len(fn.Blocks))
+				undecided := ""
+				var dfs func(b *ssa.BasicBlock)
+				dfs = func(b *ssa.BasicBlock) {
+					if visits[b.Index] >= 1 || undecided != "" {
+						return
+					}
+					visits[b.Index]++
+					defer func() { visits[b.Index]-- }()
+					switch t := b.Instrs[len(b.Instrs)-1].(type) {
+					case *ssa.Return:
+						st.why = ""
+						v, ok := st.eval(t.Results[0])
+						if !ok {
+							undecided = st.why
+							return
+						}
+						results[v&(openerBit|closerBit)] = true
+					case *ssa.If:
+						st.why = ""
+						succs := b.Succs
+						if v, ok := st.eval(t.Cond); ok {
+							if v != 0 {
+								succs = b.Succs[:1]
+							} else {
+								succs = b.Succs[1:]
+							}
+						}
+						for _, s := range succs {
+							prev := st.from[s.Index]
+							st.from[s.Index] = b.Index
+							dfs(s)
+							st.from[s.Index] = prev
+						}
+					case *ssa.Jump:
+						s := b.Succs[0]
+						prev := st.from[s.Index]
+						st.from[s.Index] = b.Index
+						dfs(s)
+						st.from[s.Index] = prev
+					}
+				}
+				st.from[0] = -1
+				dfs(fn.Blocks[0])
+				// the specification
+				nextWS, nextP := nc == "ws", nc == "punct"
+				prevWS, prevP := pc == "ws", pc == "punct"
+				left := !nextWS && (!nextP || prevWS || prevP)
+				right := !prevWS && (!prevP || nextWS || nextP)
+				var canOpen, canClose bool
+				if delim == '*' {
+					canOpen, canClose = left, right
+				} else {
+					canOpen = left && (!right || prevP)
+					canClose = right && (!left || nextP)
+				}
+				want := int64(0)
+				if canOpen {
+					want |= openerBit
+				}
+				if canClose {
+					want |= closerBit
+				}
+				desc := fmt.Sprintf("%q between %s and %s", rune(delim), pc, nc)
+				if undecided != "" {
+					bad = append(bad, desc+": not a function of the two classes and the delimiter ("+undecided+")")
+					continue
+				}
+				if len(results) != 1 || !results[want] {
+					var got []string
+					for r := range results {
+						got = append(got, fmt.Sprintf("open=%v close=%v", r&openerBit != 0, r&closerBit != 0))
+					}
+					sort.Strings(got)
+					bad = append(bad, fmt.Sprintf("%s: %s, specification open=%v close=%v", desc, strings.Join(got, " / "), canOpen, canClose))
+				}
+			}
+		}
+	}
+	c.Check(len(bad) == 0, "EMPH-FLANK", "emphasisFlags:table", fn.Pos(), fmt.Sprintf("%d combinations; deviations: %s", n, strings.Join(bad, "; ")))
 }
